@@ -20,6 +20,15 @@ def _tick(ctx, what):
 TRUSTED = core.COMMON_TRUSTED + ["clingo 5.8.2 grounder/solver as the meaning of programs in the oracle"]
 
 
+def _run_corr(job):
+    name, fn, seed, quick = job
+    t = time.time()
+    r = fn(random.Random(seed), quick)
+    if os.environ.get("VERIF_PROFILE"):
+        print(f"[profile]   correspondence {name}: {time.time() - t:.1f} s", flush=True)
+    return r
+
+
 def run_semantic(ctx, module, level, rule, flags_list, relation, origins, extra, n_corpus, n_mut, corr=None, n_inst=4,
                  facts_over="in", outp_choices=("auto",), one_to_one=True, assumptions=(), program_filter=None, decl_mix=True,
                  generators=()):
@@ -29,8 +38,12 @@ def run_semantic(ctx, module, level, rule, flags_list, relation, origins, extra,
     n_hand = len(extra)
     if corr is not None and ctx.driver_ok:
         rng = random.Random(ctx.rng.random())
-        for name, fn in corr:
-            r = fn(rng, ctx.quick())
+        jobs = [(name, fn, rng.getrandbits(64), ctx.quick()) for name, fn in corr]
+        # the correspondences of one property are independent: each runs in its own forked process
+        outs = semcheck.pool_map(_run_corr, jobs, workers=len(jobs), task_timeout=7200) if len(jobs) > 1 else [_run_corr(jobs[0])]
+        for (name, fn, seed, quick), r in zip(jobs, outs):
+            if not isinstance(r, dict) or "evaluations" not in r:
+                r = _run_corr((name, fn, seed, quick))   # a killed child is repeated in the parent: a tie is never dropped
             ctx.cov["evaluations"] += r["evaluations"]
             ctx.cov["distinct_nontrivial"] += r["nontrivial"]
             ctx.cov["unsupported"] += r["unsupported"]
